@@ -484,7 +484,7 @@ class Evaluator:
             ck = rv['ck']
             if ck.startswith('PointerCoercion') or ck in ('PtrToPtr', 'Transmute') and x[0] == 'ref':
                 return x
-            return ('cast', ck, x, self.F.ty_s(rv['ty']))
+            return ('cast', ck, x, self.F.ty_s(rv['ty']), self.F.ty_s(rv['from']) if 'from' in rv else None)
         if k == 'discr':
             p = rv['place']
             v = self.read(st, self.canon(st, p['l'], p['p']))
@@ -539,7 +539,8 @@ class Evaluator:
                 to = None
                 if len(c['args']) > 1 and 'ty' in c['args'][1]:
                     to = self.F.ty_s(c['args'][1]['ty'])
-                res = ('cast', 'as_', args[0], to)
+                frm = self.F.ty_s(c['args'][0]['ty']) if c['args'] and 'ty' in c['args'][0] else None
+                res = ('cast', 'as_', args[0], to, frm)
             elif nm in CONST_FNS and not args and c.get('trait') in CONST_FN_TRAITS:
                 ty = self.F.ty_s(c['args'][0]['ty']) if c['args'] and 'ty' in c['args'][0] else '?'
                 res = ('k', nm, ty)
